@@ -46,6 +46,7 @@ package dispatcher
 
 //@ func (*PushDispatcher).classifyDelivery
 //@   requires d != nil
+//@   calls dispatcher.Deliverer.Deliver requires [C07:delivery_body_is_the_stored_payload] callee_delivery.Body == env.Payload && callee_delivery.ID == env.ID && callee_delivery.URL == target.URL && callee_delivery.Method == "POST"
 //@   modifies lastErr, lastCode, delivers, attemptsRecorded, lastOutcome, lastDeadReason, lastAttemptNo, lastAttemptEvent
 //@   ensures [one_send] delivers == old(delivers) + 1
 //@   ensures [ack_iff] inStatusRange(lastErr, lastCode) ==> (result.kind == leaseActionAck <==> ackSpec(lastErr, lastCode))
@@ -177,6 +178,7 @@ package dispatcher
 //@ func (*HTTPDeliverer).Deliver
 //@   requires d != nil && d.Client != nil
 //@   modifies *
+//@   calls net/http.NewRequestWithContext requires [C07:request_body_is_the_delivery_body] bodyOfReader == delivery.Body && arg2 == delivery.URL
 //@   calls net/http.(*Client).Do requires [C16:send_only_after_policy] req.URL == egressOKURL && egressOKURL != nil && egressOKURL == ext("net/url.Parse", delivery.URL)
 //@   calls net/http.(*Client).Do requires [C17:send_only_when_signed] signedReq == req
 //@   ensures [C16:at_most_one_send] sends == old(sends) || sends == old(sends) + 1
